@@ -412,7 +412,7 @@ UNARY_UNSUP = ('relu', 'abs', 'neg', 'leaky_relu')
 
 def rand_graph(g, rng, n_ops=6, allow_unsupported=True, allow_emb=True,
                in_kind=None, allow_bmm_const=True, allow_rsqrt=True,
-               export_consumed_p=0.15, only=None):
+               export_consumed_p=0.15, only=None, dup_output_p=0.06):
   """Populates subgraph g with a random DAG; returns output tensor ids."""
   kind = in_kind or rng.choice(['r2', 'r3', 'r4'], p=[0.45, 0.2, 0.35])
   if kind == 'r2':
@@ -590,6 +590,10 @@ def rand_graph(g, rng, n_ops=6, allow_unsupported=True, allow_emb=True,
   if any(v >= 2 for t, v in cnt.items()
          if t >= 0 and g.b.m.buffers[g.sg.tensors[t].buffer].data is None):
     g.classes.add('multi_consumer')
+  if rng.random() < dup_output_p:
+    # the same value returned under two names: the converter lists the tensor twice in subgraph.outputs
+    outputs.append(outputs[int(rng.integers(len(outputs)))])
+    g.classes.add('duplicate_output')
   return outputs
 
 
@@ -645,6 +649,24 @@ def t_output_also_consumed(rng):
     g.classes.add('output_also_consumed')
     return [y, z]
   return _single(rng, f, 'output_also_consumed')
+
+
+def t_duplicate_output(rng):
+  """One value returned under two (or three) output names, optionally also consumed / next to another output."""
+  def f(g, rng):
+    x = g.inp((2, 8))
+    y = g.fc(x, 4)
+    k = int(rng.integers(4))
+    g.classes.add('duplicate_output')
+    if k == 0:
+      return [y, y]
+    if k == 1:
+      return [y, g.tanh(y), y]
+    if k == 2:
+      z = g.fc(y, 3)
+      return [z, y, z]
+    return [y, y, y]
+  return _single(rng, f, 'duplicate_output')
 
 
 def t_producer_zero_float_out(rng):
@@ -800,7 +822,7 @@ def t_all_unsupported(rng):
 
 TEMPLATES = [t_output_also_consumed, t_producer_zero_float_out, t_repeated_operand,
              t_unsupported_between, t_multi_group, t_shared_const_tensor, t_shared_buffer,
-             t_chain, t_weight_chain]
+             t_chain, t_weight_chain, t_duplicate_output]
 
 
 def model_for_case(rng, multi_sub_p=0.0, template_p=0.15, shuffle_p=0.15, **kw):
@@ -814,7 +836,8 @@ def model_for_case(rng, multi_sub_p=0.0, template_p=0.15, shuffle_p=0.15, **kw):
       n_sub = int(rng.integers(2, 4))
     spec = rand_model(rng, n_sub=n_sub, **kw)
   if shuffle_p and rng.random() < shuffle_p:
-    spec = shuffle_indices(spec, rng, dangling=bool(rng.random() < 0.3))
+    spec = shuffle_indices(spec, rng, dangling=bool(rng.random() < 0.3),
+                           shape_sigs=[None, None, 'static', 'dynamic'][int(rng.integers(4))])
   return spec
 
 
@@ -976,7 +999,7 @@ def t_fanout(rng, k=None):
 
 # ---------------------------------------------------------------- semantics-preserving surgery (index hygiene)
 
-def shuffle_indices(spec, rng, tensors=True, buffers=True, signatures=True, dangling=False):
+def shuffle_indices(spec, rng, tensors=True, buffers=True, signatures=True, dangling=False, shape_sigs=None):
   """Returns a spec describing the SAME model with tensor indices permuted inside every subgraph, data buffers
   permuted (buffer 0 stays the empty sentinel), the signature list reordered and optionally an unused constant
   tensor added.  Nothing about the computation changes; only code that confuses an index with an identity notices."""
@@ -1009,6 +1032,18 @@ def shuffle_indices(spec, rng, tensors=True, buffers=True, signatures=True, dang
     for sg in m.subgraphs:
       for t in sg.tensors:
         t.buffer = bperm[int(t.buffer)]
+  if shape_sigs:
+    # shape signatures as the converter writes them for models with a dynamic batch ('dynamic') or spelled out
+    # although static ('static'); metadata only -- the default shapes are unchanged
+    for sg in m.subgraphs:
+      for t in sg.tensors:
+        has_data = m.buffers[int(t.buffer)].data is not None and len(m.buffers[int(t.buffer)].data) > 0
+        if has_data or t.shape is None or len(t.shape) == 0:
+          continue
+        sig = [int(d) for d in t.shape]
+        if shape_sigs == 'dynamic' and len(sig) >= 2:
+          sig[0] = -1
+        t.shapeSignature = sig
   if dangling:
     sg = m.subgraphs[int(rng.integers(len(m.subgraphs)))]
     b = S.BufferT()
